@@ -22,8 +22,8 @@ package main
 
 import (
 	"fmt"
-	"go/types"
 	"go/token"
+	"go/types"
 	"os"
 	"runtime/debug"
 	"strings"
